@@ -114,6 +114,9 @@ func (r result) diff(o result) string {
 		if !inA || !inB {
 			return "output file set differs: " + k
 		}
+		if strings.HasSuffix(k, "!") {
+			continue // a refusal on both sides: the text of a diagnostic (positions, pointers) is not an output
+		}
 		if a != b {
 			la, lb := strings.Split(a, "\n"), strings.Split(b, "\n")
 			for i := 0; i < len(la) && i < len(lb); i++ {
@@ -319,6 +322,22 @@ func runShard(tier string, shard, n int) shardResult {
 				break
 			}
 		}
+		// the files of a package may enter the FileSet in any order (go/packages parses them
+		// concurrently): positions of different files must not decide anything
+		prog.ParseReversed = true
+		l2, err2 := prog.Load(p)
+		prog.ParseReversed = false
+		if err2 == nil {
+			sr.Runs++
+			if d := generateAll(l).diff(generateAll(l2)); d != "" {
+				target := d
+				if i := strings.IndexAny(d, "/! "); i > 0 {
+					target = d[:i]
+				}
+				sr.Failures = append(sr.Failures, evid.Failure{Clause: "C07/load-order-independent", Sig: "output of " + target + " depends on the order in which the files were parsed",
+					Detail: "files of each package parsed in reverse order (same file list, same sources): first difference: " + d, Family: it.family, Vector: it.vec, Cost: explore.Cost(it.vec), Features: p.Features, Files: p.FilesMap()})
+			}
+		}
 		verifhook.Order = orderHook
 		st := explore.Stats{}
 		first := true
@@ -382,7 +401,7 @@ func main() {
 		return
 	}
 	r := evid.NewReport("C07", tier)
-	r.Rule = "programs of every family within 1 deviation of their scaffold x analysis + all targets (7, plus typescript/api for route files); every executed map range is a choice point whose alternatives are all n! orders (n <= 4) or reversal / rotations / adjacent transpositions / move-to-fronts (n > 4); every run with at most B non-canonical orders is compared byte for byte with the canonical-order run; per program, every target is also generated twice from one shared analysis and once from an analysis of its own, and the three texts must be equal; a case is one (program, order vector); non-trivial = the program executes at least one map range with >= 2 keys"
+	r.Rule = "programs of every family within 1 deviation of their scaffold x analysis + all targets (7, plus typescript/api for route files); every executed map range is a choice point whose alternatives are all n! orders (n <= 4) or reversal / rotations / adjacent transpositions / move-to-fronts (n > 4); every run with at most B non-canonical orders is compared byte for byte with the canonical-order run; per program, the sources are also loaded with the files of each package parsed in reverse order (token positions of different files swap) and every output compared; per program, every target is also generated twice from one shared analysis and once from an analysis of its own, and the three texts must be equal; a case is one (program, order vector); non-trivial = the program executes at least one map range with >= 2 keys"
 	r.Assumptions = []string{
 		"library pass: map iteration is the only source of nondeterminism before saveOutputs (no clock or randomness); goroutines are covered by the configuration-mode pass (Config.run of the CLI on a two-file module, dart + typescript/types, under the cooperative scheduler: every schedule within the deviation bound must write the files of the canonical schedule); the instrumenter rewrites every map range of the non-test files of analysis/... and generator/... (sites listed in the evidence)",
 	}
